@@ -23,3 +23,14 @@ def cases(rng, tier):
         else:
             t = G.rand_table(rng, maxrows=maxrows)
         yield roundtrip_case("t%d" % i, t, rng)
+
+
+def be_cases(rng, tier):
+    """the same round trips in the library's big-endian configuration - where fixed-size values are converted on the way
+    out - including a write that fails part-way followed by a second write of the same table (what was built must still
+    read back as built)"""
+    from checks import C17
+    n = {"quick": 60, "thorough": 1200, "search": 40}[tier]
+    for i, c in enumerate(C17.cases(rng, tier)):
+        if i >= n: break
+        yield c
